@@ -92,11 +92,12 @@ package git
 // C12: a scan that asks for reversed topological order of commits only gets
 // --reverse and --topo-order on the command line and not --objects.
 //@ func revListArgs
-//@   props C03 C12 C16
+//@   props C03 C12 C16 C13
 //@   requires @inv opt != nil
 //@   ensures @C12 result2 == nil && opt.Order == TopoRevListOrder ==> contains(result1, "--topo-order")
 //@   ensures @C12 result2 == nil && opt.Reverse ==> contains(result1, "--reverse")
 //@   ensures @C12 result2 == nil && opt.CommitsOnly ==> forall_int(k, result1[k], 0 <= k && k < len(result1) ==> result1[k] != "--objects")
+//@   ensures @C13 result2 == nil && opt.Mode == ScanRefsMode && opt.SkipDeletedBlobs ==> contains(result1, "--no-walk") && forall_int(k, result1[k], 0 <= k && k < len(result1) ==> result1[k] != "--do-walk")
 //@   at call git.includeExcludeShas:2 assert arg0__ == include && arg1__ == exclude && len(opt.SkippedRefs) == 0
 //@   at call git.includeExcludeShas:3 assert arg0__ == include && arg1__ == exclude && len(opt.SkippedRefs) > 0
 //@   at call strings.Join:2 assert opt.Mode == ScanRangeToRemoteMode ==> len(args) >= 3 && args[len(args)-2] == "--not" && args[len(args)-1] == scat("--remotes=", opt.Remote)
